@@ -452,11 +452,23 @@ func c08Pipeline(c *Ctx, w *ws.Workspace, units []rt.JobUnit, probesOnly bool) (
 		}
 		cl, call := tsHelperProps(src, tc.Svc)
 		all := append(append([]string{}, cl...), call...)
-		if len(all) == 0 {
-			continue
-		}
 		sort.Strings(all)
-		hops = append(hops, map[string]any{"op": "helpers", "id": k, "client": mods[tc.Unit][0], "svc": tc.Svc, "rpc": tc.RPC, "reqObj": tc.ReqObj, "helpers": dedup(all)})
+		// header names for the option-precedence probes: three undeclared spellings and every name the RPC declares
+		names := []string{"X-Custom-Hdr", "x-lower-custom", "X-ALLCAPS-ID"}
+		for _, js := range JobUnitFor(u).Services {
+			if js.Name != tc.Svc {
+				continue
+			}
+			for _, m := range js.Methods {
+				if m.Name == tc.RPC {
+					for _, hd := range append(append([]rt.JobHeader{}, m.SvcHeaders...), m.MethHeaders...) {
+						names = append(names, hd.Name)
+					}
+				}
+			}
+		}
+		sort.Strings(names)
+		hops = append(hops, map[string]any{"op": "helpers", "id": k, "client": mods[tc.Unit][0], "svc": tc.Svc, "rpc": tc.RPC, "reqObj": tc.ReqObj, "helpers": dedup(all), "names": dedup(names)})
 	}
 	if d.helpers, err = runNode(c, w, hops); err != nil {
 		return nil, err
@@ -643,6 +655,34 @@ func c08Judge(r *report.Run, w *ws.Workspace, d *tsData) {
 		}()
 		if len(r.Samples) < 3 {
 			r.Sample(map[string]any{"case": id, "class": tc.Class, "req_obj": string(tc.ReqObj), "ts_client_request": d.tsRec[id]["request"]})
+		}
+	}
+	// generic header options of the TS client: the per-call value wins for its own call only
+	for k, h := range d.helpers {
+		parts := strings.SplitN(k, "|", 3)
+		u := w.Unit(parts[0])
+		if u == nil {
+			continue
+		}
+		ps, _ := h["precedence"].([]any)
+		for _, x := range ps {
+			pm, _ := x.(map[string]any)
+			cell := fmt.Sprintf("%s,service=%s,rpc=%s,hdrshape=%s,client=ts#%s", u.Spec.Cell, parts[1], parts[2], headerShape(str(pm, "header")), str(pm, "mode"))
+			var got []string
+			if l, ok := pm["got"].([]any); ok {
+				for _, g := range l {
+					got = append(got, fmt.Sprint(g))
+				}
+			}
+			switch {
+			case str(pm, "error") != "":
+				r.Violate(cell, "client_error", "TS client: "+str(pm, "error"), pm)
+			case len(got) != 1 || got[0] != str(pm, "want"):
+				r.Violate(cell, "header_option_precedence", fmt.Sprintf("TS client, header %s, options %s: the request carries %v, want [%s] (dv = client default, cv = per-call value)", str(pm, "header"), str(pm, "mode"), got, str(pm, "want")), pm)
+				r.Case(cell, "header_option_precedence", true)
+			default:
+				r.Case(cell, "header_option_applied", true)
+			}
 		}
 	}
 	// header helpers (TS side): every declared header has an option that sets exactly that header
